@@ -225,7 +225,9 @@ def main():
     notes = []
 
     # 1. regenerate + proof status
-    rc, out = regen()
+    rc, out = (0, "")
+    if REPO == "/repo" or cfgp.get("uses_gen"):
+        rc, out = regen()
     if rc != 0:
         broken.append({"kind": "regeneration", "name": "astgen", "detail": out[-1500:]})
     if tier == "thorough" and not a.replay:
